@@ -50,11 +50,11 @@ type vlanSim struct {
 	cfg       nexus.VLANAllocatorConfig
 	a         *nexus.VLANAllocator
 	ntes      []string
-	has       map[string]pair   // model: NTE -> pair, from observed return values
-	holder    map[pair]string   // model: pair -> NTE
-	freedBy   map[pair]string   // pair -> NTE that last gave it up
-	loaded    bool              // history contains a LoadFromStore
-	nt        bool              // a released pair was re-acquired by another NTE, or two NTEs contended for a pair
+	has       map[string]pair // model: NTE -> pair, from observed return values
+	holder    map[pair]string // model: pair -> NTE
+	freedBy   map[pair]string // pair -> NTE that last gave it up
+	loaded    bool            // history contains a LoadFromStore
+	nt        bool            // a released pair was re-acquired by another NTE, or two NTEs contended for a pair
 	exhausted bool
 }
 
@@ -358,13 +358,13 @@ func TestPropVLANAllocator(t *testing.T) {
 		// listed LoadFromStore defects end a case at the first conflicting load: keep most cases free of them
 		conflictLoads := true
 		if vstat.IsListed(sigVlanDupLoad) || vstat.IsListed(sigVlanLeakLoad) {
-			conflictLoads = rapid.IntRange(0, 3).Draw(rt, "conflictLoads") == 0
+			conflictLoads = rapid.IntRange(0, 2).Draw(rt, "conflictLoads") == 0
 		}
 		nte := rapid.SampledFrom(vlanNTEs)
 		stag := rapid.IntRange(int(cfg.STagRange.Start), int(cfg.STagRange.End))
 		ctag := rapid.IntRange(int(cfg.CTagRange.Start), int(cfg.CTagRange.End))
 		loads, conflicts := 0, 0
-		rt.Repeat(map[string]func(*rapid.T){
+		rt.Repeat(guard(&v.h.dead, map[string]func(*rapid.T){
 			"alloc": func(rt *rapid.T) {
 				v.step(rt, vlanOp{kind: "alloc", nte: nte.Draw(rt, "nte")})
 			},
@@ -416,12 +416,7 @@ func TestPropVLANAllocator(t *testing.T) {
 				}
 				v.step(rt, vlanOp{kind: "load", recs: recs})
 			},
-			"": func(rt *rapid.T) {
-				if v.h.dead {
-					rt.Skip("known finding fired")
-				}
-			},
-		})
+		}))
 		v.drain(rt)
 		cls := []string{"vlan", fmt.Sprintf("vlan:grid=%dx%d", cfg.STagRange.End-cfg.STagRange.Start+1, cfg.CTagRange.End-cfg.CTagRange.Start+1)}
 		if loads > 0 {
@@ -434,7 +429,7 @@ func TestPropVLANAllocator(t *testing.T) {
 			cls = append(cls, "vlan:exhausted")
 		}
 		if v.nt {
-			cls = append(cls, "nt:reacquired-or-contended")
+			cls = append(cls, "nt:reacquired-or-contended", "nt:"+cls[0])
 		}
 		ops := v.h.ops
 		vstat.Case(v.nt, v.h.fp(), func() any { return map[string]any{"component": "vlan", "ops": ops} }, cls...)
@@ -480,7 +475,10 @@ func TestPropVLANExhaustive(t *testing.T) {
 			for _, i := range seq {
 				fp = fp*31 + uint64(i) + 1
 			}
-			vstat.Case(v.nt, vstat.Hash("vlan-exhaustive", fp), func() any { return map[string]any{"component": "vlan-exhaustive", "ops": v.h.history()} }, "vlan-exhaustive")
+			// depth 7 is 3.6e7 sequences: keep the fingerprint set bounded by recording every 64th non-trivial one
+			// (distinct_nontrivial is then an undercount, never an overcount)
+			nt := v.nt && (depth <= 5 || fp%64 == 0)
+			vstat.Case(nt, vstat.Hash("vlan-exhaustive", fp), func() any { return map[string]any{"component": "vlan-exhaustive", "ops": v.h.history()} }, "vlan-exhaustive")
 			return
 		}
 		for i := range alphabet {
